@@ -12,7 +12,7 @@ PROP_MODULES = ["WV.Props.ClientSkel", "WV.Props.C14"]
 # translation validation of the control machines' method bodies against WV.Client (tools/extract.py::extract_pyir ->
 # WV/Gen/PyIR.lean; agents/deepPyIR2_integration.md): part of the check as soon as the modules are installed
 import os as _os
-PROP_MODULES += ["WV.Props." + _m for _m in ("PyIR_Client", "PyIR_Client_Boss", "PyIR_Client_Glue")
+PROP_MODULES += ["WV.Props." + _m for _m in ("PyIR_Client", "PyIR_Client_Boss", "PyIR_Client_Glue", "PyIRRC_C14")
                  if _os.path.exists(_os.path.join(_os.path.dirname(_os.path.abspath(__file__)), "..", "..", "lean", "WV",
                                                   "Props", _m + ".lean"))]
 NATIVE_DECIDE_MODULES = ["WV.Proofs.ClientCert"]   # the one finite certificate, disclosed (DESIGN §4)
